@@ -18,6 +18,7 @@ from .. import rig as R, ref, gen, subm, dump, env
 from ..orch import h
 
 ID = "C03"
+TECHNIQUE = 'runtime monitoring - authenticity oracle (independent sha256 + schnorr) over everything acknowledged, stored or pushed, for ~120 single corruptions x event shapes through websocket, storage API and CLI; concurrent twins and resend-after-acceptance sequences'
 LEVEL = "exploration"
 RULE = (
     "cases = (backend, admission path, valid seed shape out of ~33 covering every kind class / delegation / tag and "
